@@ -1,6 +1,6 @@
 """C14 - alarm times = anchor + TRIGGER + k*DURATION, k = 0..REPEAT (RFC 5545 / RFC 9074).
 
-E-enum: component {VEVENT, VTODO} x start {absent, date, floating, UTC, zoned 12h before a DST change, zoned} x end
+E-enum: component {VEVENT, VTODO} x start {absent, date, floating, UTC, zoned 12h before a DST change, zoned, dateutil-zoned, fixed offset} x end
 {absent, DTEND|DUE, DURATION in days, DURATION with a time part, zero DURATION} x alarm lists of length <= 2 over the product
 TRIGGER (8) x RELATED (3) x (REPEAT, DURATION) (8, incl. a zero DURATION), each built through the API and again parsed from its own
 serialisation, under both providers.  Oracle: refmodel/alarms.py; per alarm the sequence of trigger times, and overall
@@ -18,7 +18,7 @@ from icalendar.alarms import Alarms, IncompleteAlarmInformation
 from icalendar.timezone import tzp
 
 UTC = timezone.utc
-STARTS = ("absent", "date", "floating", "utc", "zoned-dst", "zoned")
+STARTS = ("absent", "date", "floating", "utc", "zoned-dst", "zoned", "zoned-dateutil", "fixed-offset")
 ENDS = ("absent", "explicit", "dur-days", "dur-time", "dur-zero")
 TRIGGERS = ("absent", "PT0S", "-PT15M", "PT5H", "-P1D", "P1D", "abs-utc", "abs-zoned")
 RELATED = (None, "START", "END")
@@ -40,6 +40,11 @@ def start_value(kind):
         return datetime(2024, 3, 30, 14, 0, tzinfo=UTC)
     if kind == "zoned-dst":
         return tzp.localize(datetime(2024, 3, 30, 22, 0), "Europe/Berlin")
+    if kind == "zoned-dateutil":  # a third tzinfo implementation (wall-clock arithmetic), 12h before a DST change
+        import dateutil.tz
+        return datetime(2024, 10, 26, 22, 0, tzinfo=dateutil.tz.gettz("Europe/Berlin"))
+    if kind == "fixed-offset":  # datetime.timezone with a non-zero offset (no zone id)
+        return datetime(2024, 3, 30, 14, 0, tzinfo=timezone(timedelta(hours=5, minutes=30)))
     return tzp.localize(datetime(2024, 6, 1, 10, 0), "America/New_York")
 
 
@@ -125,6 +130,11 @@ def run_case(case):
     if path == "parsed":
         cls = Event if cname == "VEVENT" else Todo
         comp = cls.from_ical(comp.to_ical())
+    if path == "parsed" and sk == "zoned-dateutil":
+        # after parsing the value carries the ACTIVE provider's tzinfo for Europe/Berlin: "plus" is that provider's addition
+        start = tzp.localize(start.replace(tzinfo=None), "Europe/Berlin")
+        if end is not None:
+            end = tzp.localize(end.replace(tzinfo=None), "Europe/Berlin")
     exp = expectation(start, end, dur, specs)
     fails = []
     try:
@@ -181,7 +191,7 @@ REDUCED = [(t, r, rd) for t in ("-PT15M", "PT5H", "-P1D", "abs-utc") for r in (N
 
 
 def run(ctx):
-    ctx.rule = ("E-enum: {VEVENT,VTODO} x 6 start kinds x 5 end kinds (incl. a zero DURATION) x all single alarms TRIGGER(8) x RELATED(3) x "
+    ctx.rule = ("E-enum: {VEVENT,VTODO} x 8 start kinds x 5 end kinds (incl. a zero DURATION) x all single alarms TRIGGER(8) x RELATED(3) x "
                 "(REPEAT,DURATION)(8, incl. a zero DURATION) x {API-built, parsed} x {zoneinfo, pytz}; plus all ordered pairs over a reduced menu of "
                 f"{len(REDUCED)} alarm shapes" + ("" if ctx.quick else " and all triples over 8 shapes") +
                 ". non-trivial = at least one alarm has a TRIGGER.")
